@@ -464,6 +464,17 @@ func fieldTypes(fs []string) []string {
 	return out
 }
 
+// subseqStrings: a is a subsequence of b.
+func subseqStrings(a, b []string) bool {
+	k := 0
+	for _, x := range b {
+		if k < len(a) && a[k] == x {
+			k++
+		}
+	}
+	return k == len(a)
+}
+
 func eqStrings(a, b []string) bool {
 	if len(a) != len(b) {
 		return false
@@ -666,10 +677,16 @@ func BuildAliases(p *Prog) {
 						continue
 					}
 					cfp := funcFP(fn)
+					need := 0.6
 					if cfp.Sig != fp.Sig {
-						continue
+						// same parameters, and results that were only dropped or only added (a result
+						// nobody read; an extra ok): the same function if its work is the same
+						if !eqStrings(cfp.PTypes, fp.PTypes) || !(subseqStrings(cfp.RTypes, fp.RTypes) || subseqStrings(fp.RTypes, cfp.RTypes)) || len(fp.Callees) < 3 {
+							continue
+						}
+						need = 0.8
 					}
-					if s := jaccard(cfp.Callees, fp.Callees); s >= 0.6 {
+					if s := jaccard(cfp.Callees, fp.Callees); s >= need {
 						ms = append(ms, match{f, s})
 					}
 				}
